@@ -2,7 +2,8 @@
 
 package c08
 
-// [c08p10] kind `mat`: EVERY registered protocol matcher (the function each xprotocol codec hands out in ProtocolMatch(),
+// [c08p10] kind `mat`: EVERY registered protocol matcher (the function each xprotocol codec hands out in ProtocolMatch(), called
+// through stream/xprotocol's streamConnFactory.ProtocolMatch;
 // the ProtocolMatch methods of the HTTP/1 and HTTP/2 stream factories) on every prefix of generated streams, on inputs
 // of every length around the matchers' guards and on random bytes — each call on a buffer whose capacity equals its
 // length (hx.Exact), so a read at or beyond the length it was given panics instead of reading slack.
@@ -12,10 +13,10 @@ import (
 	"context"
 	"encoding/binary"
 
-	"mosn.io/api"
 	str "mosn.io/mosn/pkg/stream"
 	shttp "mosn.io/mosn/pkg/stream/http"
 	shttp2 "mosn.io/mosn/pkg/stream/http2"
+	sxp "mosn.io/mosn/pkg/stream/xprotocol"
 	"verif/harness/framegen"
 	"verif/harness/hx"
 )
@@ -33,21 +34,8 @@ func c08pMatch(name string, data []byte) string {
 			case "http2":
 				r = c08pErrTok((&shttp2.StreamConnFactory{}).ProtocolMatch(context.Background(), "", data))
 			default:
-				m := framegen.Codec(name).ProtocolMatch()
-				if m == nil {
-					r = "nomatcher"
-					return
-				}
-				switch m(data) {
-				case api.MatchAgain:
-					r = "again"
-				case api.MatchSuccess:
-					r = "success"
-				case api.MatchFailed:
-					r = "failed"
-				default:
-					r = "other"
-				}
+				// through the xprotocol stream factory: streamConnFactory.ProtocolMatch calls the codec's matcher
+				r = c08pErrTok(sxp.NewStreamFactory(framegen.Codec(name)).ProtocolMatch(context.Background(), "", data))
 			}
 		})
 		if panicked {
